@@ -19,13 +19,15 @@ static unsigned long long n_cases = 0, n_nontrivial = 0, n_refused = 0;
 
 /* ---- what the handler has to do ---- */
 enum { J_ARRAY, J_BLOCK, J_BLOCK_STREAM, J_HEADER, J_SCRIPT };
-static scpi_result_t h_part(scpi_t * c) { SCPI_ResultArbitraryBlockHeader(c, 10); SCPI_ResultArbitraryBlockData(c, "abcd", 4); return SCPI_RES_OK; }
-static scpi_result_t h_stray(scpi_t * c) { SCPI_ResultArbitraryBlockData(c, "xyz", 3); SCPI_ResultInt32(c, 7); return SCPI_RES_OK; }
+static int h_errs2;
+static scpi_result_t h_part(scpi_t * c) { int e0 = tc_nerr; SCPI_ResultArbitraryBlockHeader(c, 10); SCPI_ResultArbitraryBlockData(c, "abcd", 4); h_errs2 += tc_nerr - e0; return SCPI_RES_OK; }
+static scpi_result_t h_stray(scpi_t * c) { int e0 = tc_nerr; SCPI_ResultArbitraryBlockData(c, "xyz", 3); SCPI_ResultInt32(c, 7); h_errs2 += tc_nerr - e0; return SCPI_RES_OK; }
 static int job, j_type, j_format; static size_t j_count, j_len;
 static void * j_data;
 static int j_script[8], j_nscript;
 static const char scriptdata[] = "wxyz";
 
+static int h_errs;
 static scpi_result_t h_q(scpi_t * c) {
     int i;
     switch (job) {
@@ -64,6 +66,7 @@ static scpi_result_t h_q(scpi_t * c) {
             SCPI_ResultInt32(c, 7);
             break;
     }
+    h_errs = tc_nerr;            /* errors raised by the result calls themselves; what the library adds once the handler has returned is not this property's subject */
     return SCPI_RES_OK;
 }
 static const scpi_command_t cmds[] = { {"Q?", h_q, 1}, {"PART?", h_part, 2}, {"STRAY?", h_stray, 3}, SCPI_CMD_LIST_END };
@@ -77,7 +80,7 @@ static void e_header(unsigned long long nbytes) { char h[32], d[24]; int dl = sp
 static void run_and_compare(const char * sigclass, const char * descr, int expect_errors) {
     uint64_t h = 0xcbf29ce484222325ULL;
     size_t i;
-    tc_reinit(&T, cmds); tr_reset();
+    tc_reinit(&T, cmds); tr_reset(); h_errs = 0;
     SCPI_Input(&T.ctx, "Q?\n", 3);
     n_cases++;
     for (i = 0; i < EN; i++) { h ^= E[i]; h *= 0x100000001b3ULL; }
@@ -92,7 +95,7 @@ static void run_and_compare(const char * sigclass, const char * descr, int expec
     }
     if (expect_errors >= 0) {
         /* "refused with an error": one error per refused call, whichever number the library chooses for it (-310 on the pinned tree) */
-        if (tc_nerr != expect_errors) { char sig[96]; snprintf(sig, sizeof sig, "c17/%s/refusal-error", sigclass); mc_viol(sig, "%s: %d errors raised (first %d), expected %d (one per refused data call)", descr, tc_nerr, tc_nerr ? tc_errs[0] : 0, expect_errors); return; }
+        if (h_errs != expect_errors) { char sig[96]; snprintf(sig, sizeof sig, "c17/%s/refusal-error", sigclass); mc_viol(sig, "%s: %d errors raised inside the handler (first %d), expected %d (one per refused data call)", descr, h_errs, tc_nerr ? tc_errs[0] : 0, expect_errors); return; }
     }
     n_nontrivial++;
     mc_outcome(h ^ EN);
@@ -238,10 +241,10 @@ int main(int argc, char ** argv) {
             int e, n310 = 0;
             if (!MC_CASE()) continue;
             mc_case_tag = "two-units"; mc_case_s[0] = (const unsigned char *) mu[k].msg; mc_case_n[0] = strlen(mu[k].msg);
-            tc_reinit(&T, cmds); tr_reset();
+            tc_reinit(&T, cmds); tr_reset(); h_errs2 = 0;
             SCPI_Input(&T.ctx, mu[k].msg, (int) strlen(mu[k].msg));
             n_cases++;
-            (void) e; n310 = tc_nerr;          /* errors raised, whatever their number */
+            (void) e; n310 = h_errs2;          /* errors raised inside the handlers, whatever their number */
             if (OUTN != strlen(mu[k].exp) || memcmp(OUT, mu[k].exp, OUTN) || n310 != mu[k].n310)
                 mc_viol("c17/unit/stray-data-after-unfinished-block-of-previous-unit", "message [%s]: output [%s] with %d errors, expected [%s] with %d errors", mc_es(mu[k].msg), mc_e(OUT, OUTN), n310, mc_es(mu[k].exp), mu[k].n310);
             else n_nontrivial++;
